@@ -223,3 +223,57 @@ Example C01_style_examples :
   /\ StyleDetect.derive_format (s2l "Args: are described below"%string) = StyleDetect.Google
   /\ StyleDetect.derive_format (s2l "See :param x: above. Args: too"%string) = StyleDetect.Rest.
 Proof. exact StyleDetectProofs.style_examples. Qed.
+
+(* ---- the parameter lines of a Google-style docstring (Model/GoogleLine.v: emit_param_str for style "google" and the unit reader of the
+   Google / NumPy parse phase, both compared with the code each run through emit_param_str and parse_docstring).  For EVERY list of
+   entries of the domain -- names and types that are not blank at either end and hold no colon, names without "(", types without the
+   word " or ", descriptions (if any) that are not blank at either end, do not end in a colon and are not the "{a, b}" choice syntax --
+   the lines written are read back as exactly those entries, in order: no written line is taken for the start of the free text
+   "afterwards" (C01_google_line_not_afterward: it ends in a blank or in the last character of its description). *)
+From CDD Require GoogleLine GoogleLineProofs.
+Theorem C01_google_params_roundtrip : forall es, forallb GoogleLineProofs.entry_ok es = true ->
+  GoogleLine.google_params (map GoogleLineProofs.emit_entry es) = GoogleLine.PList (map GoogleLineProofs.read_entry es).
+Proof. exact GoogleLineProofs.google_params_roundtrip. Qed.
+Print Assumptions C01_google_params_roundtrip.
+Theorem C01_google_line_not_afterward : forall n t d,
+  match d with Some x => x <> [] /\ match last_opt x with Some c => negb (N.eqb c GoogleLine.GCOLON) | None => true end = true | None => True end ->
+  GoogleLine.is_afterward (GoogleLine.emit_google_param n t d) = false.
+Proof. exact GoogleLineProofs.google_line_not_afterward. Qed.
+Print Assumptions C01_google_line_not_afterward.
+(* non-vacuity, and what lies outside the domain: a parameter line whose trailing blank was trimmed ("  b (int):") ends the parameter
+   list -- it and every line after it become free text; a colon-less line ends the list silently; "(int or str)" is read as a Union *)
+Example C01_google_examples :
+  GoogleLine.google_params [s2l "  a (int): the value"; s2l "  b: other"; s2l "  c (List[str]): "]
+  = GoogleLine.PList [(s2l "a", Some (s2l "int"), s2l "the value"); (s2l "b", None, s2l "other"); (s2l "c", Some (s2l "List[str]"), [])]
+  /\ forallb GoogleLineProofs.entry_ok [(s2l "a", Some (s2l "int"), Some (s2l "the value")); (s2l "b", None, Some (s2l "other")); (s2l "c", Some (s2l "List[str]"), None)] = true
+  /\ GoogleLine.google_params [s2l "  a (int): v"; s2l "  b (int):"; s2l "  c (int): w"] = GoogleLine.PList [(s2l "a", Some (s2l "int"), s2l "v")]
+  /\ GoogleLine.google_params [s2l "  a (int or str): v"] = GoogleLine.PList [(s2l "a", Some (s2l "Union[int, str]"), s2l "v")]
+  /\ GoogleLine.google_params [s2l "  a (int)x: v"] = GoogleLine.PRaises
+  /\ GoogleLine.google_params [s2l "  a (int): v"; s2l "  b"; s2l "  c: w"] = GoogleLine.PList [(s2l "a", Some (s2l "int"), s2l "v")].
+Proof. exact GoogleLineProofs.google_examples. Qed.
+
+(* ---- the NumPy counterpart (Model/NumpyLine.v, compared with emit_param_str and, through parse_docstring, with the NumPy unit reader):
+   for EVERY name that is not blank at either end and holds no colon, every type and one-line description that do not start with a
+   blank, "name : typ" followed by the indented description is read back as that entry.  With types omitted only the description
+   line is written and is read as a NAME (C01_numpy_without_types_refuted: the recorded names/missing finding, as a fact about the
+   faithful model). *)
+From CDD Require NumpyLine NumpyLineProofs.
+Theorem C01_numpy_unit_roundtrip : forall n t d,
+  RestDocProofs.head_ok n = true -> RestDocProofs.head_ok (rev n) = true -> GoogleLineProofs.lacks GoogleLine.GCOLON n = true ->
+  RestDocProofs.head_ok t = true -> match d with Some x => RestDocProofs.head_ok x = true | None => True end ->
+  NumpyLine.parse_numpy_unit (NumpyLine.emit_numpy_param true true n (Some t) d)
+  = NumpyLine.NEntry n (Some t) (Some (match d with Some x => x | None => [] end)).
+Proof. exact NumpyLineProofs.numpy_unit_roundtrip. Qed.
+Print Assumptions C01_numpy_unit_roundtrip.
+Example C01_numpy_without_types_refuted :
+  NumpyLine.emit_numpy_param false true (s2l "size") (Some (s2l "int")) (Some (s2l "how big")) = [s2l "    how big"]
+  /\ NumpyLine.parse_numpy_unit [s2l "    how big"] = NumpyLine.NEntry (s2l "how big") None None.
+Proof. exact NumpyLineProofs.numpy_without_types_refuted. Qed.
+Theorem C01_numpy_params_roundtrip : forall es, forallb NumpyLineProofs.nentry_ok es = true ->
+  NumpyLine.numpy_params (map NumpyLineProofs.emit_nentry es) = map NumpyLineProofs.read_nentry es.
+Proof. exact NumpyLineProofs.numpy_params_roundtrip. Qed.
+Print Assumptions C01_numpy_params_roundtrip.
+Example C01_numpy_example :
+  NumpyLine.parse_numpy_unit (NumpyLine.emit_numpy_param true true (s2l "size") (Some (s2l "Optional[int]")) (Some (s2l "how big")))
+  = NumpyLine.NEntry (s2l "size") (Some (s2l "Optional[int]")) (Some (s2l "how big")).
+Proof. exact NumpyLineProofs.numpy_example. Qed.
